@@ -124,6 +124,10 @@ FinalizeProblem(e) ==
           THEN "finalize: a stored backward conditional is not the one between consecutive output times"
      ELSE IF Hdr.strategy # "filter" /\ Tm(e.aux2[1]) # ExpectedOutput(X, e.i[nOut])
           THEN "finalize: the terminal marginal of the Markov sequence"
+     \* the filtering distributions a smoother returns next to its posterior (e.aux3, one per output time)
+     ELSE IF Hdr.strategy # "filter" /\ Len(e.aux3) = nOut /\
+             (\E q \in 1..nOut : Tm(e.aux3[q]) # N(e.i[q], Kappa, ScaleSegs(InfoUpTo(X.segs, e.i[q]), Kappa)))
+          THEN "finalize: a returned filtering marginal is not the filtering distribution at its output time"
      ELSE ""
 
 \* reported step counts: output q (q >= 2) reports the number of accepted steps that started before its time
